@@ -54,7 +54,13 @@ type Proof struct {
 }
 
 func (p *Proof) IsValid(public Public) bool {
-	if p == nil {
+	if p == nil || p.group == nil || p.Commitment == nil {
+		return false
+	}
+	if public.E == nil || curve.IsNilPoint(public.E.L) || curve.IsNilPoint(public.E.M) {
+		return false
+	}
+	if curve.IsNilPoint(p.A) || curve.IsNilPoint(p.N) || curve.IsNilPoint(p.B) || curve.IsNilScalar(p.Z) || curve.IsNilScalar(p.U) {
 		return false
 	}
 	if p.A.IsIdentity() || p.N.IsIdentity() || p.B.IsIdentity() {
